@@ -10,6 +10,38 @@ CHECKS = {
             "Exploration: every cell of (edge key x length class x scheme x group) is executed against the real library; each honest signature is checked for determinism, acceptance, acceptance by an independent CoreVerify, and survival through all key/public-key/signature encodings (enumerated, not sampled). Held = held on the executions listed in evidence.",
             "Trusted: reference oracle arithmetic (bls12_381_plus), sha2; keys/messages inside a cell are sampled.",
             "DESIGN.md 6 C01"),
+    "C02": ("runtime monitor: perturbation catalogue per honest tuple; constructed expectation AND differential reference CoreVerify on every tuple; three verify entry points",
+            "Exploration: the full perturbation catalogue of the quantifier (signature, message incl. exhaustive bit flips of a short message, key, scheme label, and algebraically related VALID tuples) is applied to honest tuples in every (scheme x group) cell; each decision of Signature::verify, MultiSignature::verify and PublicKeyShare::verify is compared with the expectation and with an independent two-pairing CoreVerify.",
+            "Trusted: reference arithmetic (bls12_381_plus) and its hash-to-curve; keys/messages sampled, catalogue enumerated.",
+            "DESIGN.md 6 C02"),
+    "C03": ("runtime monitor: byte-level differential against an independent implementation written from the IETF draft (HKDF over hand-written HMAC, Horner OS2IP, pure-Rust curve arithmetic), both directions",
+            "Exploration: library outputs (seed-derived keys, public keys, signatures x3 schemes x2 groups, PoPs, aggregates, wire forms) are compared byte for byte with the reference on enumerated seed lengths, edge keys and length classes; the 8 tag constants are compared with the draft literals exhaustively; cross-verification in both directions.",
+            "No official test vectors are available offline; conformance rests on agreement of two independent implementations plus literal constants from the draft. Trusted: bls12_381_plus, sha2.",
+            "DESIGN.md 6 C03"),
+    "C04": ("runtime monitor: entry point x argument position substitution of identity/zero with honest remainder, must-not-succeed oracle with positive twin; algebraically satisfying all-identity forgeries constructed explicitly",
+            "Exploration with an enumerated discrete space: every verify/decrypt/finalize entry point x every point/scalar-typed position x 3 schemes x 2 groups is driven with the identity/zero substituted, including the combinations that satisfy the pairing equation trivially (so only the guard can reject) and a time-lock ciphertext crafted to open under the identity signature; the honest twin must succeed or the case is not counted.",
+            "Keys/messages sampled; positions, entry points, schemes enumerated.",
+            "DESIGN.md 6 C04"),
+    "C05": ("runtime monitor: relabel / cross-purpose matrix with positive twins + exhaustive check of the exposed tag constants",
+            "Exploration: all 6 ordered scheme pairs x 2 groups x purposes (signature, proof of knowledge, signcryption, time-lock, PoP vs signature over pk bytes) must reject after relabelling while the unrelabelled twin is accepted; the 10 tag constants are checked exhaustively for pairwise distinctness and draft equality.",
+            "Keys/messages sampled.",
+            "DESIGN.md 6 C05"),
+    "C06": ("runtime monitor: list perturbation + permutation workload, expectation AND reference CoreAggregateVerify on every list",
+            "Exploration: honest aggregates of n signers (n up to 64 in the thorough tier) are verified in several orders, every single-position perturbation kind is applied at first/middle/last (quick) or every position (thorough), duplicate-message multisets are built with the algebraically valid aggregate, and the from_signatures refusal matrix is enumerated; every decision is cross-checked with an independent CoreAggregateVerify.",
+            "Trusted: reference arithmetic. Keys/messages sampled.",
+            "DESIGN.md 6 C06"),
+    "C07": ("runtime monitor: signer-set perturbation workload, expectation + reference sum/verify",
+            "Exploration: multi-signature = reference group sum (bytes); verify under the accumulated key; omission/addition/replacement at every position (n<=16) and other messages rejected; all 3^n scheme assignments for n in {2,3} and Aug-at-every-position refused.",
+            "Trusted: reference arithmetic. Keys/messages sampled.",
+            "DESIGN.md 6 C07"),
+    "C08": ("runtime monitor: exhaustive subset enumeration for small (t,n), sampled corners up to 255; whole-key results + independent Lagrange interpolation as oracles",
+            "Exploration with an exhaustive sub-space: every (t,n) with n<=5 (quick) / n<=7 (thorough) and every subset of every size in two orders, for key, public key and Basic/PoP signatures in both groups; >=t must equal the whole-key result byte for byte, <t must not; partial-signature i x j matrix; error catalogue; corners (2,255),(255,255).",
+            "Trusted: reference Lagrange/arithmetic. Key/message sampled per split.",
+            "DESIGN.md 6 C08"),
+    "C09": ("runtime monitor: key-pair matrix + proof perturbation, expectation + reference PopVerify",
+            "Exploration: every key of the pool (edge scalars + random) proves, verifies, matches the reference PopProve bytes; every ordered pair of distinct keys must fail; perturbations of the proof point and signatures over the public-key bytes must fail; re-encoded proofs must pass.",
+            "Trusted: reference arithmetic.",
+            "DESIGN.md 6 C09"),
 }
 
 NOT_YET = {}
